@@ -1,9 +1,12 @@
 package main
 
 import (
+	"fmt"
+
 	"go/ast"
 	"go/token"
 	"go/types"
+	"golang.org/x/tools/go/cfg"
 
 	"golang.org/x/tools/go/packages"
 )
@@ -185,5 +188,139 @@ func ruleLookupOK(c *Ctx) {
 	c.stat("map_reads", nReads)
 	if nReads < 20 {
 		anchorFail("lookup.ok: expected >=20 reads of ProtoArray.indices/blockSlots, found %d", nReads)
+	}
+}
+
+func init() {
+	register(&Rule{Name: "dirty.flag", Floor: 2,
+		Doc: "the proto-array's lazily maintained best-child/best-descendant links are marked stale (updatedConnections = false) on every path that leaves a method after it appended a node; the queries that rely on the links (FindHead, InSubtree) test the flag before using them. A grown graph that keeps the flag set is invisible to head computation and to every canonical-chain query until something else clears it",
+		Run: ruleDirtyFlag})
+}
+
+func ruleDirtyFlag(c *Ctx) {
+	pk := c.P.Pkg("eth2/forkchoice/proto")
+	if pk == nil {
+		anchorFail("dirty.flag: package eth2/forkchoice/proto not loaded")
+	}
+	info := pk.TypesInfo
+	grow, readers := 0, 0
+	c.P.funcDecls(func(p *packages.Package, fd *ast.FuncDecl) {
+		if p != pk || fd.Body == nil || recvTypeName(fd) != "ProtoArray" || len(fd.Recv.List[0].Names) != 1 {
+			return
+		}
+		recv := info.Defs[fd.Recv.List[0].Names[0]]
+		fname := "proto." + funcName(fd)
+		g := cfg.New(fd.Body, func(*ast.CallExpr) bool { return true })
+		isAppend := func(n ast.Node) bool {
+			as, ok := n.(*ast.AssignStmt)
+			if !ok || len(as.Lhs) != 1 || len(as.Rhs) != 1 || !isRecvField(info, as.Lhs[0], recv, "nodes") {
+				return false
+			}
+			call, ok := ast.Unparen(as.Rhs[0]).(*ast.CallExpr)
+			if !ok {
+				return false
+			}
+			id, ok := call.Fun.(*ast.Ident)
+			return ok && id.Name == "append"
+		}
+		isClear := func(n ast.Node) bool {
+			as, ok := n.(*ast.AssignStmt)
+			if !ok || len(as.Lhs) != 1 || len(as.Rhs) != 1 || !isRecvField(info, as.Lhs[0], recv, "updatedConnections") {
+				return false
+			}
+			id, ok := ast.Unparen(as.Rhs[0]).(*ast.Ident)
+			return ok && id.Name == "false"
+		}
+		k := 0
+		for _, b := range g.Blocks {
+			if !b.Live {
+				continue
+			}
+			for i, n := range b.Nodes {
+				if !isAppend(n) {
+					continue
+				}
+				grow++
+				k++
+				key := fmt.Sprintf("%s@append%d", fname, k)
+				// cleared later in the same block?
+				cleared := false
+				for _, m := range b.Nodes[i+1:] {
+					if isClear(m) {
+						cleared = true
+					}
+				}
+				if cleared {
+					c.ok(key, n.Pos(), "links marked stale right after the append")
+					continue
+				}
+				// every path from here to an exit must meet a clearing block
+				seen := map[*cfg.Block]bool{}
+				var leak *cfg.Block
+				var walk func(x *cfg.Block)
+				walk = func(x *cfg.Block) {
+					if seen[x] || leak != nil {
+						return
+					}
+					seen[x] = true
+					for _, m := range x.Nodes {
+						if isClear(m) {
+							return
+						}
+					}
+					if len(x.Succs) == 0 {
+						leak = x
+						return
+					}
+					for _, s := range x.Succs {
+						walk(s)
+					}
+				}
+				for _, s := range b.Succs {
+					walk(s)
+				}
+				if len(b.Succs) == 0 {
+					leak = b
+				}
+				if leak != nil {
+					pos := n.Pos()
+					if len(leak.Nodes) > 0 {
+						pos = leak.Nodes[len(leak.Nodes)-1].Pos()
+					}
+					c.bad(key, pos, "%s appends a node and can return without `updatedConnections = false`: the new node stays invisible to FindHead / CanonicalChain / InSubtree until another insertion or score update refreshes the links", fname)
+				} else {
+					c.ok(key, n.Pos(), "every path after the append marks the links stale")
+				}
+			}
+		}
+		// readers of the links
+		switch funcName(fd) {
+		case "ProtoArray.FindHead", "ProtoArray.InSubtree":
+			readers++
+			tested := false
+			ast.Inspect(fd.Body, func(n ast.Node) bool {
+				if is, ok := n.(*ast.IfStmt); ok {
+					if ue, ok := ast.Unparen(is.Cond).(*ast.UnaryExpr); ok && ue.Op == token.NOT && isRecvField(info, ue.X, recv, "updatedConnections") {
+						ast.Inspect(is.Body, func(m ast.Node) bool {
+							if call, ok := m.(*ast.CallExpr); ok {
+								if f := calleeFunc(info, call); f != nil && f.Name() == "updateConnections" {
+									tested = true
+								}
+							}
+							return true
+						})
+					}
+				}
+				return true
+			})
+			if tested {
+				c.ok(fname+"@refresh", fd.Pos(), "refreshes the links when they are stale")
+			} else {
+				c.bad(fname+"@refresh", fd.Pos(), "%s uses best-child/best-descendant links without `if !updatedConnections { updateConnections() }`", fname)
+			}
+		}
+	})
+	if grow < 2 || readers < 2 {
+		anchorFail("dirty.flag: expected >=2 node appends and 2 link readers in ProtoArray, found %d / %d", grow, readers)
 	}
 }
